@@ -33,7 +33,7 @@ PLAIN_REPLAY_TIMEOUT = 6
 BOUNDS = {'quick': {'start window': 'any microsecond within +-3 s of a configured boundary (or of midnight)',
                     'observations': 'start + 1 symbolic instant <= 8 s later (<= 1 boundary crossing) + reconfig',
                     'configs': 'catalog of 10 TimeDate/TimeSpan configurations, 3 base dates, local/UTC',
-                    'clock jump': 'forward, 30 s .. 1 h, at a symbolic instant'},
+                    'clock jump': 'forward, 30 s .. 1 h, at a symbolic instant between 9:00 and 9:30, or in the evening, jump <= 2 h from 22:40..22:55 (quick) / <= 3 h from 22:05..23:55 (thorough), over midnight or not'},
           'thorough': {'start window': 'as quick', 'observations': 'start + 2 symbolic instants (<= 2 crossings) + reconfig',
                        'configs': 'catalog, 2 blocks sharing the scheduler', 'clock jump': 'as quick'}}
 OUTSIDE = ["configured endpoints are concrete (they are dictionary keys inside Cron)", "real DST / time-zone behaviour of "
@@ -44,7 +44,7 @@ STUBS = ["Cron.dtnow -> symbolic wall clock (symx/wallclock.py): base date + sym
 ASSUMPTIONS = ["tolerance around a boundary: 5 ms (statement: 'a few milliseconds')"]
 EXPECT_LABELS = {'all': ['output-at-start', 'output-later', 'no-error', 'after-reconfig', 'jump-survived', 'after-jump']}
 EXPECT_NOTES = {'all': ['start-just-before-boundary', 'start-just-after-boundary', 'crossed-boundary', 'crossed-midnight',
-                        'observation-near-boundary']}
+                        'observation-near-boundary', 'jump-over-midnight']}
 FLOORS = {'quick': {'paths': 100, 'checks': 300}, 'thorough': {'paths': 500, 'checks': 1500}}
 
 H = 3_600_000_000
@@ -284,24 +284,27 @@ def scen_timespan(env, base, nobs=1, bidx=None, by_seq=None):
         vloop.run(main())
 
 
-def scen_jump(env, cfg, base):
+def scen_jump(env, cfg, base, evening=False):
     """a forward jump of the system clock at a symbolic instant: never terminates the simulation,
-    outputs correct again within one hour"""
+    outputs correct again within one hour.  evening: the application runs late in the evening, so the jump
+    (up to 1 h) may or may not carry the clock over midnight - into another date / weekday"""
     if cfg == 'span-empty':
         kind, kw, bounds, pred = 'ts', dict(span=()), [], (lambda base_, off: False)
     else:
         kind, kw, bounds, pred = CONFIGS[cfg]
-    w0 = env.int('w0', us(9), us(9, 30))
+    w0 = env.int('w0', us(22, 40 if evening == 'narrow' else 5), us(22 if evening == 'narrow' else 23, 55)) if evening else env.int('w0', us(9), us(9, 30))
     with Run(env, BASES[base], w0, False) as run:
         blk = edzed.TimeDate('td', **kw) if kind == 'td' else edzed.TimeSpan('ts', **kw)
         t_jump = env.real('t_jump', 0, 20)
-        J = env.int('jump_us', 30 * S, 3600 * S)
+        J = env.int('jump_us', 30 * S, ((2 if evening == 'narrow' else 3) if evening else 1) * 3600 * S)
 
         async def main():
             task = asyncio.create_task(run.circ.run_forever())
             await run.circ.wait_init()
             await asyncio.sleep(t_jump)
             run.clock.offset_us = J
+            if env.possible(w0 + J >= US_DAY):
+                env.note('jump-over-midnight')
             await asyncio.sleep(3600.0)
             env.check('jump-survived', run.circ.error is None and not task.done(), info=lambda: run.circ.error)
             if run.circ.error is None:
@@ -406,4 +409,9 @@ def shards(tier):
                             'cost': 50})
     for cfg in (('plain', 'span-empty') if tier == 'quick' else ('plain', 'nothing', 'span-empty', 'only-weekdays')):
         out.append({'name': f'clock jump {cfg}', 'scenario': 'scen_jump', 'params': {'cfg': cfg, 'base': 'mid'}, 'cost': 30})
+    # a jump that may carry the clock over midnight: Friday -> Saturday, Feb 28 -> Feb 29, Saturday -> Sunday 0:00:01
+    for cfg, base in ((('only-weekdays', 'mid'),) if tier == 'quick' else
+                      (('only-weekdays', 'mid'), ('feb29', 'feb28'), ('weekdays', 'sat'), ('plain', 'mid'))):
+        out.append({'name': f'clock jump in the evening {cfg} base={base}', 'scenario': 'scen_jump',
+                    'params': {'cfg': cfg, 'base': base, 'evening': 'narrow' if tier == 'quick' else 'wide'}, 'cost': 60})
     return out
